@@ -462,6 +462,7 @@ def generate(run_seed: int, tier: str = 'quick', stream: str = 'seq') -> dict:
         'CONSUME': rng.pick([0, 1, 2.5]),
         'CLONE': rng.pick([0, 0.5, 1.5]),
         'FROM_WORKER': rng.pick([0, 0, 0.6, 1.5]),
+        'GROW': rng.pick([0, 0, 0.6, 1.5]) if 'metrics' in cfg['kinds'] else 0,
     }
     n_ops = rng.randint(10, 120 if tier == 'quick' else 250)
     ops = []
@@ -553,6 +554,19 @@ def generate(run_seed: int, tier: str = 'quick', stream: str = 'seq') -> dict:
                    'gc': rng.chance(0.3), 'client': rng.randrange(n_clients)}
             names.append((new['name'], k))
             ops.append(new)
+        elif kind == 'GROW':
+            # metrics over the client's own trajectory; the trajectory is extended in place; new metrics over the same object
+            wq, vq = rng.randrange(n_worlds), rng.randrange(2)
+            mi = rng.randrange(DECORATED['metrics'])
+            n1 = new_name()
+            ops.append({'op': 'CREATE', 'name': n1, 'kind': 'metrics', 'w': wq, 'v': vq, 'private': True, 'client': 0})
+            names.append((n1, 'metrics'))
+            ops.append({'op': 'QUERY', 'obj': n1, 'm': mi, 'a': 0, 'client': 0})
+            ops.append({'op': 'GROW', 'w': wq, 'v': vq})
+            n2 = new_name()
+            ops.append({'op': 'CREATE', 'name': n2, 'kind': 'metrics', 'w': wq, 'v': vq, 'private': True, 'client': 0})
+            names.append((n2, 'metrics'))
+            ops.append({'op': 'QUERY', 'obj': n2, 'm': mi, 'a': 0, 'client': 0})
         elif kind == 'FROM_WORKER':
             if n_worlds < 2:
                 continue
@@ -657,6 +671,7 @@ class Run:
         self.oracle_checks = 0
         self.flood_serial = 0
         self.asked: set = set()
+        self.private: dict = {}
         # decorated methods the table does not know (none on the unchanged tree): exercised with no arguments
         import inspect
 
@@ -682,6 +697,26 @@ class Run:
     def world(self, i):
         return self.worlds[i % len(self.worlds)]
 
+    def private_traj(self, w, v, g, fresh: bool):
+        """The client's own copy of a world trajectory, extended g times in place.  ``fresh`` builds a new one (for the twin)."""
+        from gemdat import Trajectory
+
+        def make(n):
+            src = self.world(w).traj_variant(v)
+            t = Trajectory(species=list(src.species), coords=np.array(self.world(w).pos, copy=True) if v == 0 else np.mod(np.asarray(src.positions), 1.0).copy(),
+                           lattice=src.get_lattice(), time_step=src.time_step, metadata=dict(src.metadata))
+            for _ in range(n):
+                t.extend(t[1:3])
+            return t
+
+        if fresh:
+            return make(g)
+        key = (w % len(self.worlds), v)
+        ent = self.private.get(key)
+        if ent is None:
+            ent = self.private[key] = {'traj': make(0), 'g': 0}
+        return ent['traj']
+
     @staticmethod
     def root_world(recipe):
         while recipe[0] in ('part', 'collective', 'jumps_on', 'jumps_on_c'):
@@ -695,6 +730,9 @@ class Run:
         if kind == 'metrics':
             _, w, v = recipe
             return C['metrics'](self.world(w).traj_variant(v))
+        if kind == 'metrics_p':  # metrics over a trajectory of its own that the client has grown g times with extend()
+            _, w, v, g = recipe
+            return C['metrics'](self.private_traj(w, v, g, fresh=twin))
         if kind == 'transitions':
             _, w, v = recipe
             return C['transitions'](**self.world(w).transitions_kwargs(v))
@@ -847,7 +885,13 @@ class Run:
         w = op['w'] % len(self.worlds)
         deps, maybe = [], []
         checkable = True
-        if kind == 'metrics' and op.get('via') == 'api':
+        if kind == 'metrics' and op.get('private'):
+            key = (w, op.get('v', 0) % 2)
+            self.private_traj(key[0], key[1], 0, fresh=False)
+            recipe = ('metrics_p', key[0], key[1], self.private[key]['g'])
+            obj = self.build(recipe, twin=False)
+            kind = 'metrics'
+        elif kind == 'metrics' and op.get('via') == 'api':
             recipe = (kind, w, op.get('v', 0))
             obj = self.world(w).traj_variant(op.get('v', 0)).metrics()
         elif kind in ('metrics', 'transitions'):
@@ -1295,6 +1339,26 @@ class Run:
         self.stats.fault('object_from_worker_process')
         self.trace.log(ev='FROM_WORKER', step=self.step, name=op['name'], recipe=list(recipe), method=method)
 
+    def op_grow(self, op):
+        """The client extends its own trajectory in place and throws away the analyses of the shorter one; new analysis objects over
+        the SAME trajectory object must see the grown data."""
+        key = (op['w'] % len(self.worlds), op.get('v', 0) % 2)
+        ent = self.private.get(key)
+        if ent is None:
+            return self.trace.log(ev='GROW', step=self.step, skipped=True)
+        t = ent['traj']
+        if len(t) > 400:
+            return self.trace.log(ev='GROW', step=self.step, skipped='long')
+        for e in self.entries.values():
+            if e.recipe[0] == 'metrics_p' and tuple(e.recipe[1:3]) == key and e.obj is not None:
+                e.holders.clear()
+                e.dead_id = id(e.obj)
+                e.obj = None
+        t.extend(t[1:3])
+        ent['g'] += 1
+        self.stats.fault('trajectory_grown_in_place')
+        self.trace.log(ev='GROW', step=self.step, w=key[0], v=key[1], g=ent['g'])
+
     def op_consume(self, op):
         e = self.entries.get(op['obj'])
         if e is None or e.obj is None or not CONSUMERS.get(e.kind):
@@ -1372,7 +1436,7 @@ class Run:
         else:
             gc.enable()
         table = {'CREATE': self.op_create, 'QUERY': self.op_query, 'DROP': self.op_drop, 'GC': self.op_gc, 'SHARE': self.op_share,
-                 'CHURN': self.op_churn, 'REUSE_PROBE': self.op_reuse, 'FLOOD': self.op_flood, 'CONCURRENT': self.op_concurrent, 'CONSUME': self.op_consume, 'CLONE': self.op_clone, 'FROM_WORKER': self.op_from_worker}
+                 'CHURN': self.op_churn, 'REUSE_PROBE': self.op_reuse, 'FLOOD': self.op_flood, 'CONCURRENT': self.op_concurrent, 'CONSUME': self.op_consume, 'CLONE': self.op_clone, 'FROM_WORKER': self.op_from_worker, 'GROW': self.op_grow}
         for i, op in enumerate(self.sc['ops']):
             self.step = i
             table[op['op']](op)
